@@ -417,7 +417,22 @@ impl ProcfsHandle {
             // readlinkat(2) on something that is not a symlink (or a path that
             // does not exist) fails with ENOENT: not a symlink, do not follow.
             Err(err) if err.kind() == ErrorKind::OsError(Some(libc::ENOENT)) => {
-                return self.open(base, subpath, oflags).map(File::from);
+                let file = self.open(base, subpath, oflags).map(File::from)?;
+                // On a masked handle ENOENT from the probe is not conclusive:
+                // the entry may only exist on an unmasked procfs and the
+                // temporary unmasked handle for the probe may have failed to
+                // materialise for unrelated reasons. If this open found a
+                // symlink after all, do not hand out the link itself (unless
+                // that is what the caller asked for).
+                if !oflags.contains(OpenFlags::O_NOFOLLOW)
+                    && file
+                        .metadata()
+                        .map(|meta| meta.file_type().is_symlink())
+                        .unwrap_or(false)
+                {
+                    return Err(err).wrap("readlink probe missed a symlink target");
+                }
+                return Ok(file);
             }
             // Any other error says nothing about what the target is. Falling
             // back to an O_NOFOLLOW open here would, after a transient failure
